@@ -1,6 +1,7 @@
 (* Entry points [sx -> sx] for the schema pipeline: decode a case, run the model, encode what the
    harness observes of the Go run. *)
 From Coq Require Import List ZArith Bool.
+From Verif Require Spec.Visited.
 From Verif Require Import Base.Sx Base.GoVal Base.F64 Schema.Ast Schema.Pipeline Schema.Simple Schema.Draft4 Schema.Classes Schema.Helpers Schema.Post.
 Import ListNotations.
 Open Scope Z_scope.
@@ -179,6 +180,17 @@ Definition run_post (s : sx) : sx :=
           | OutOfFuel => L [A 2]
           end
       | _, _, _, _, _ => sx_err
+      end
+  | _ => sx_err
+  end.
+
+(* the visited-path heuristic: ((bytes of the path) ((bytes of a visited path) ...)) -> 0/1 *)
+Definition run_visited (s : sx) : sx :=
+  match s with
+  | L [p; vs] =>
+      match getZs p, getList getZs vs with
+      | Some p, Some vs => ofBool (Spec.Visited.is_visited p vs)
+      | _, _ => sx_err
       end
   | _ => sx_err
   end.
